@@ -1,6 +1,8 @@
 import FrappyProofs.Lemmas.Activate
 import FrappyProofs.Lemmas.ActivateSnap
 import FrappyProofs.Lemmas.ActivateLoss
+import FrappyProofs.Lemmas.ActivateQuiet
+import FrappyProofs.Lemmas.ActivateExplicit
 import FrappyModel.Generated.C08
 /-
 C08 — property theorems (nothing but property theorems and their non-vacuity examples).
@@ -32,6 +34,29 @@ its `active` reply, no ending request started) reaches that connection before th
 theorem no_loss (cfg : Cfg) (hs : Conn → List Req) (us : Nat → List (Mod × Par × Entry))
     (cache : Mod → Par → Entry) (σ : State) (h : Reach cfg (init hs us cache) σ) : NoLoss cfg σ.trace :=
   noLoss_reach' cfg hs us cache σ h
+
+/-- When nothing is in progress (every request answered, every announced assignment returned), the last
+update a connection holds for a parameter of a scope firmly in force equals the node's cache. -/
+theorem quiescent_last_eq_cache (cfg : Cfg) (hs : Conn → List Req) (us : Nat → List (Mod × Par × Entry))
+    (cache : Mod → Par → Entry) (σ : State) (h : Reach cfg (init hs us cache) σ) :
+    QuiescentLastEqCache cfg cache σ.trace :=
+  quiescent_reach cfg hs us cache σ h
+
+/-- the cache the specification reconstructs from the trace is the node's cache -/
+theorem cacheAfter_is_cache (cfg : Cfg) (hs : Conn → List Req) (us : Nat → List (Mod × Par × Entry))
+    (cache : Mod → Par → Entry) (σ : State) (h : Reach cfg (init hs us cache) σ) :
+    cacheAfter cache σ.trace = σ.cache := by
+  rw [cacheAfter_eq cfg cache σ.trace]; exact (snapInv_reach cfg hs us cache σ h).cur
+
+/-- `silent_after_deactivate` without the monitor: every update delivered to `c` for `m:p` is preceded by a request
+marker `activate s` of `c` with `s` covering `m:p`, and no positive reply of `c` to a request ending `s`
+(matching `deactivate`, `*IDN?`, disconnect) lies in between. -/
+theorem silent_after_deactivate_explicit (cfg : Cfg) (hs : Conn → List Req) (us : Nat → List (Mod × Par × Entry))
+    (cache : Mod → Par → Entry) (σ : State) (h : Reach cfg (init hs us cache) σ) : SilentExplicit σ.trace :=
+  (silent_iff_explicit σ.trace).1 (silent_after_deactivate cfg hs us cache σ h)
+
+/-- the executable quiescence test the driver uses is the `Quiet` of the specification -/
+theorem quiet_monitor_exact (tr : List Obs) : quietB tr = true ↔ Quiet tr := quietB_iff tr
 
 /-- A request of connection `c`, and every action of an updater, leaves the scopes of all other connections
 as they are. -/
@@ -99,6 +124,21 @@ example : ∃ σ, Reach exCfg exInit σ ∧ σ.trace.length = 6 ∧ finished σ 
 /-- while the updater holds the module's update lock the activating thread cannot start its snapshot (it is
 blocked, the updater is not): blocking occurs, deadlock does not -/
 example : ((run exCfg exInit (exActs.take 6 ++ [⟨.h 1, 0⟩])).isSome) = false := by decide
+
+/-- a quiescent reachable state in which the hypotheses of `quiescent_last_eq_cache` and `no_loss` are met:
+connection 1 stays activated, the updater's value 7 was emitted after the `active` reply, reached the
+connection, and is the last message it holds -/
+def exInit2 : State :=
+  init (fun c => if c = 1 then [.activate (.par 0 0)] else [])
+       (fun k => if k = 1 then [(0, 0, .val 7)] else []) (fun _ _ => .val 0)
+
+def exActs2 : List Act :=
+  (List.replicate 10 ⟨.h 1, 0⟩) ++ [⟨.u 1, 0⟩, ⟨.u 1, 0⟩, ⟨.u 1, 1⟩, ⟨.u 1, 0⟩, ⟨.u 1, 0⟩, ⟨.u 1, 0⟩, ⟨.h 1, 0⟩]
+
+example : ((run exCfg exInit2 exActs2).map (fun σ =>
+      (quietB σ.trace, coveredBy (firmAfter σ.trace 1) 0 0, lastDelivered σ.trace 1 0 0, σ.cache 0 0,
+       finished σ (.h 1), finished σ (.u 1), σ.trace.length))) =
+    some (true, true, some (.val 7), .val 7, true, true, 6) := by rfl
 
 /-- the monitors are not trivially true: the pinned tree's log `update 7, inactive, update 5` is rejected … -/
 example : silentMon.accepts
